@@ -46,9 +46,9 @@ Ev == Rec[l]
 Is(kind) == l <= Len(Rec) /\ Rec[l].ev = kind
 Inst == Rec[l].inst
 
-ExpFp(mode, e) == IF mode = "none" THEN "none"
-                  ELSE IF mode = "match" THEN (IF e = "C" THEN "certS" ELSE "certC")
-                  ELSE "certX"
+ExpFp(mode, e, k) == IF mode = "none" THEN "none"
+                     ELSE IF mode = "match" THEN GenuineK(Peer(e), k)
+                     ELSE "certX"
 
 Labels(out) ==
   LET RECURSIVE F(_)
@@ -74,8 +74,8 @@ IsPrefix(p, s) == Len(p) <= Len(s) /\ \A i \in 1..Len(p) : p[i] = s[i]
 
 FreshEp(c) ==
   [e \in E |->
-     IF e = "C" THEN InitEp("C", CertOfId(c.idC, "C"), AlsoOfId(c.idC, "C"), KeyOfId(c.idC, "C"), IF c.idC = "certC" THEN "dhC" ELSE "dhMc", "rC", ExpFp(c.fpC, "C"))
-                ELSE InitEp("S", CertOfId(c.idS, "S"), AlsoOfId(c.idS, "S"), KeyOfId(c.idS, "S"), IF c.idS = "certS" THEN "dhS" ELSE "dhMs", "rS", ExpFp(c.fpS, "S"))]
+     IF e = "C" THEN InitEp("C", CertOfId(c.idC, "C"), AlsoOfId(c.idC, "C"), KeyOfId(c.idC, "C"), IF c.idC = "certC" THEN "dhC" ELSE "dhMc", "rC", ExpFp(c.fpC, "C", c.kS))
+                ELSE InitEp("S", CertOfIdK(c.idS, "S", c.kS), AlsoOfIdK(c.idS, "S", c.kS), KeyOfIdK(c.idS, "S", c.kS), IF c.idS = "certS" THEN "dhS" ELSE "dhMs", "rS", ExpFp(c.fpS, "S", c.kS))]
 
 \* a fresh pair, both started (the client's ClientHello is owed)
 ResetTo(c) ==
@@ -89,7 +89,7 @@ ResetTo(c) ==
 
 TraceInit ==
   /\ l = 1
-  /\ ep = FreshEp([fpC |-> "none", fpS |-> "none", idC |-> "certC", idS |-> "certS"])
+  /\ ep = FreshEp([fpC |-> "none", fpS |-> "none", idC |-> "certC", idS |-> "certS", kS |-> "ec"])
   /\ pend = [e \in E |-> <<>>]
   /\ sent = [e \in E |-> <<>>]
   /\ kh = [e \in E |-> ""]
